@@ -579,7 +579,7 @@ fn cov_ref(data: &Mat) -> (Mat, f64) {
 }
 
 fn draw_cov(c: &mut Case, n: usize, is32: bool) -> Option<MahaInput> {
-    let kinds = ["spd"];
+    let kinds = ["identity", "scaled-identity", "diagonal", "spd", "spd", "spd", "equicorrelation", "integer-gram"];
     let kind = *c.rng.pick(&kinds);
     let mut a = match kind {
         "identity" => Mat::eye(n),
@@ -603,12 +603,7 @@ fn draw_cov(c: &mut Case, n: usize, is32: bool) -> Option<MahaInput> {
             }
             g
         }
-        _ => {
-            let q = rand_orth(&mut c.rng, n);
-            let lam = graded(n, c.rng.logu(3e3, 9.5e3));
-            let ql = Mat::from_fn(n, n, |i, j| q.at(i, j) * lam[j]);
-            ql.mul(&q.t())
-        }
+        _ => spd(&mut c.rng, n, 9e3).0,
     };
     if kind != "identity" && kind != "scaled-identity" {
         let s = if c.rng.bool(0.5) { 1.0 } else { c.rng.logu(1e-4, 1e4) };
@@ -710,7 +705,7 @@ fn maha_t<T: RealNumber, M: Matrix<T>>(c: &mut Case, from_data: bool, backend: &
     };
     let (lo, hi, band) = if c.rng.bool(0.5) { (1e-3, 1e3, "1e-3..1e3") } else { (1e-6, 1e6, "1e-6..1e6") };
     let mut tr = draw_triple(&mut c.rng, n, is32, lo, hi);
-    if c.rng.bool(1.1) {
+    if c.rng.bool(0.25) {
         // differences along eigenvectors of the covariance (extreme values of the quadratic form)
         let pickv = |rng: &mut Rng| -> usize {
             match rng.below(3) {
@@ -722,7 +717,7 @@ fn maha_t<T: RealNumber, M: Matrix<T>>(c: &mut Case, from_data: bool, backend: &
         let (k1, k2) = (pickv(&mut c.rng), pickv(&mut c.rng));
         let a = c.rng.logu(lo, hi / 4.0);
         let b = c.rng.logu(lo, hi / 4.0);
-        let x: Vec<f64> = if c.rng.bool(1.1) { vec![0.0; n] } else { tr.x.iter().map(|v| v / 4.0).collect() };
+        let x: Vec<f64> = if c.rng.bool(0.5) { vec![0.0; n] } else { tr.x.iter().map(|v| v / 4.0).collect() };
         let y: Vec<f64> = (0..n).map(|i| x[i] + a * inp.mref.evecs.at(i, k1)).collect();
         let z: Vec<f64> = (0..n).map(|i| y[i] + b * inp.mref.evecs.at(i, k2)).collect();
         let fix = |v: Vec<f64>| -> Vec<f64> { v.iter().map(|q| rt(is32, clamp(*q, hi))).collect() };
@@ -824,7 +819,7 @@ macro_rules! maha_dispatch {
 }
 
 fn maha_cov(c: &mut Case) {
-    let is32 = true;
+    let is32 = c.rng.bool(0.5);
     let backend = *c.rng.pick(&["dense", "dense", "dense", "ndarray", "nalgebra"]);
     maha_dispatch!(c, false, is32, backend);
 }
@@ -898,6 +893,14 @@ fn reject_maha<T: RealNumber>(c: &mut Case, from_data: bool, n: usize, lx: usize
             d.set(j, j, v);
         }
         c.describe(json!({"distance": "mahalanobis", "constructor": "new(data)", "width": w, "n": n, "data": mat_json(&d), "x": fv(&x), "y": fv(&y)}));
+        // the constructor must succeed only for full-rank data: certified by the reference
+        match MahaRef::new(&cov_ref(&d).0) {
+            Some(r) if r.cond <= 1e4 => {}
+            _ => {
+                c.skip("drawn data for the length-contract case not of full rank / ill-conditioned");
+                return;
+            }
+        }
         let dm: DenseMatrix<T> = to_dense(&d);
         c.must("mahalanobis.new", || Mahalanobis::new(&dm))
     } else {
